@@ -55,13 +55,29 @@ CLAIMED = {
             "inequality (assumed).", BASE_NOTE + " G2, G5 assumed.", "DESIGN §6-C13"),
     "C14": ("integrate('log u(x)') for every factor kind and batch convention (and its refusal), integrate_log_conditional for an arbitrary "
             "block Gaussian q over (y,x), integrate_log_conditional_y as callable and evaluated, for the linear, identity and NN-controlled "
-            "kinds, are proved equal to the Wick expectations. RBF / squared-exponential feature models: see evidence (covered when listed).",
+            "kinds, are proved equal to the Wick expectations; RBF feature model: integrate_log_conditional_y (callable and evaluated) proved "
+            "from the kernel moments. Not covered: integrate_log_conditional of the feature models (needs the inverse of a block matrix) and "
+            "the squared-exponential model's pair-level terms.",
             BASE_NOTE + " G1, G2 assumed.", "DESIGN §6-C14"),
     "C15": ("Literal statement on equal parameters, both sides extracted from the real code: rank-one / linear / constant factors vs "
             "ConjugateFactor (evaluate, slice, product, multiply and hadamard in both update_full modes incl. Sherman-Morrison vs full "
             "inversion, expected log-factor), diagonal measure / density / conditional vs the full-matrix classes, identity and "
             "identity-diagonal conditionals vs ConditionalGaussianPDF with M=I, b=0 for every operation and batch layout, NN-controlled "
             "conditional with fixed control vs ConditionalGaussianPDF(M(u), b(u)).", BASE_NOTE, "DESIGN §6-C15"),
+    "C16": ("Moment matching proved from first principles (kernel moments as Gaussian integrals of products, axiom G1): RBF feature model -- "
+            "unit-height read-out, condition_on_x, expected moments, cross terms, marginal (wf_pdf), conditional transformation (= Gaussian "
+            "conditional of the moment-matched joint) and the joint's mean / covariance blocks, R generic or 1; squared-exponential (LSEM) "
+            "model -- read-out, condition_on_x and all mean-level clauses; heteroscedastic exp and cosh-1 links -- E[link(h)], moments, "
+            "cross terms, marginal, conditional, joint blocks. NOT covered (stated in evidence): LSEM covariance-level clauses (two "
+            "successive Sherman-Morrison updates exceed the canonicalisation budget), step / rectified-linear moment matching (vmap over "
+            "truncated measures), precision / log-determinant of the moment-matched joint (inverse of a block matrix is opaque).",
+            BASE_NOTE + " G1, G2 assumed; positive definiteness of moment-matched covariances is a precondition.", "DESIGN §6-C16, §11"),
+    "C17": ("Decides clause (a) only: for the four links, condition_on_x(x) has mean Mx+b and covariance AA' + A_k diag(link(Wx+w0)) A_k' and "
+            "its precision / log-determinant ARE the inverse / log-determinant of that covariance in the square regime Da = Dy (rational "
+            "identities in the link value, Lean-checked det(A(1+D)A')); in the wide regime Da > Dy the same obligations fail with replayable "
+            "inputs and are recorded as open known finding KF-heteroscedastic-woodbury-Da-gt-Dy. Clauses (b) validity of the lower bounds and "
+            "(c) tightness are variational / asymptotic statements about a lax.while_loop fixed point and are NOT covered.",
+            BASE_NOTE + " Only the coherence clause is decided; G6 (variational bounds) would have to be assumed for (b).", "DESIGN §6-C17, §11"),
     "C18": ("Decides the contract-expressible part: the REAL registered flatten/unflatten lambdas (captured by substituting "
             "jax.tree_util.register_pytree_node) round-trip every factor / measure / density / conditional class in every cache state with "
             "all attributes proved equal; every pytree child is an array or None (the structural precondition of jit/vmap/scan; open known "
